@@ -9,6 +9,7 @@ import (
 	"time"
 
 	"github.com/go-gts/gts"
+	"verif/clidrv"
 	"verif/engine"
 	"verif/locdom"
 	"verif/refmodel"
@@ -371,6 +372,8 @@ func c19Eval(c c19Case) (ok bool, sig, detail string) {
 			}
 		}
 		return true, "", ""
+	case "cli-select":
+		return c19CLIEval(c)
 	case "insert-fork":
 		locs, err := decodeAll(c.Locs)
 		if err != nil {
@@ -472,7 +475,7 @@ func nestedComplement(loc gts.Location) bool {
 func init() {
 	register(&Check{ID: "C19", Level: "model_checking", Quick: 150 * time.Second, Thor: 30 * time.Minute,
 		Run: func(r *engine.Run) bool {
-			r.Rule = "(a) every selector string of <=k tokens over {gene,CDS,/,=,a,b,x,y,.,*,^,$} x 36 features (3 keys x 12 qualifier sets incl. multi-valued and empty values); (b) And/Or/Not trees of depth <=2 over atomic key/qualifier/bounds/strand filters x features over a location domain; (c) Filter over every table of 0..3 features; (d) every insertion sequence of 1..3 locations (4 on a subset) incl. source keys, and fork histories (two different features inserted into one table built by 0..9 insertions; both results and the table itself judged); (e) all triples for the order axioms; distinct key = the case (selector/boolean cases are generated exactly once by a mixed-radix index and counted without a hash set); non-trivial = selector with >=1 clause, resp. sequence with >=2 features"
+			r.Rule = "(a) every selector string of <=k tokens over {gene,CDS,/,=,a,b,x,y,.,*,^,$} x 36 features (3 keys x 12 qualifier sets incl. multi-valued and empty values); (b) And/Or/Not trees of depth <=2 over atomic key/qualifier/bounds/strand filters x features over a location domain; (c) Filter over every table of 0..3 features; (d) every insertion sequence of 1..3 locations (4 on a subset) incl. source keys, and fork histories (two different features inserted into one table built by 0..9 insertions; both results and the table itself judged); (e) all triples for the order axioms; (f) gts select with every list of 0..2 (some 3) selectors from a menu of 10 x {-v} x {-s}: the non-source features of the output are exactly the accepted ones in table order; distinct key = the case (selector/boolean cases are generated exactly once by a mixed-radix index and counted without a hash set); non-trivial = selector with >=1 clause, resp. sequence with >=2 features"
 			complete := true
 			eval := func(c c19Case, nontrivial bool, size int) {
 				r.Evals.Add(1)
@@ -675,6 +678,15 @@ func init() {
 					eval(c19Case{Kind: "insert", Locs: ls}, true, 990)
 					eval(c19Case{Kind: "insert", Locs: ls, Keys: []string{"source", "", "source", ""}}, true, 991)
 					eval(c19Case{Kind: "insert", Locs: ls, Keys: []string{"source", "source", "", ""}}, true, 991)
+				})
+				complete = complete && done
+			}
+			// (f) the gts select command: selector lists of 0..3 x {-v} x {-s both, forward, reverse}
+			if complete && clidrv.Bin() != "" {
+				cases := c19CLICases()
+				r.Extra["cli_select_cases"] = len(cases)
+				done := r.ParallelFor(len(cases), func(i int) {
+					eval(cases[i], true, 2000+len(cases[i].Locs)*10+len(cases[i].Keys))
 				})
 				complete = complete && done
 			}
